@@ -321,8 +321,16 @@ def rule_nan_restore(ctx):
     conds = cfg.path_conditions(st)
     parts = []
     bad = None
+    def classify_or_extra(e):
+        c = classify(e)
+        if c is not None:
+            return c
+        if isinstance(e, (ast.BoolOp, ast.UnaryOp)):
+            return None  # let to_prop recurse
+        return p_atom("EXTRA_CONDITION(" + unparse(e).replace(" ", "")[:60] + ")")
+
     for t, pol in conds:
-        p = to_prop(t, classify)
+        p = to_prop(t, classify_or_extra)
         if p is None:
             bad = t
             break
@@ -396,6 +404,7 @@ MUTANTS = [
     M("every float converted through int", [(F_TYPE, "        if isinstance(value, float) and float.is_integer(value):", "        if isinstance(value, float):")], "R-string-form", "str(int(v))"),
     M("NaN reinstated even when dropna", [(F_BASE, "            if not dropna:  # checking whether we should have dropped nans or not", "            if True:  # checking whether we should have dropped nans or not")], "R-nan-restore"),
     M("NaN reinstated when dropna (polarity)", [(F_BASE, "            if not dropna:  # checking whether", "            if dropna:  # checking whether")], "R-nan-restore", quick=True),
+    M("NaN reinstated only when the frame holds a missing value (depends on other rows)", [(F_BASE, "                if self.str_nan in label_per_value:\n                    x_copy[feature] = x_copy[feature].replace(label_per_value[self.str_nan], nan)", "                if self.str_nan in label_per_value and X[feature].isna().any():\n                    x_copy[feature] = x_copy[feature].replace(label_per_value[self.str_nan], nan)")], "R-nan-restore"),
     M("wrong label turned into NaN", [(F_BASE, "x_copy[feature].replace(label_per_value[self.str_nan], nan)", "x_copy[feature].replace(self.str_nan, nan)")], "R-nan-restore", "exactly"),
     M("qualitative map applied to all features", [(F_BASE, "                for feature, label_per_value in self.labels_per_values.items()\n                if feature in self.qualitative_features\n", "                for feature, label_per_value in self.labels_per_values.items()\n")], "R-qualitative-map"),
 ]
